@@ -272,7 +272,9 @@ LegalEntry(e, c, tt, ks) ==
        \* is updated in place (inplace, or a scoped node without rebuild_scopes) and reached twice would
        \* have its already transformed children transformed again: then the key occurs only once
        \/ /\ e.typ = "tuple" /\ Len(e.key) = 1 /\ sv = e.key[1] /\ c.cls \in {"T", "N"}
-          /\ selfBelow => \/ Count(StripSeq(Pre(c.tree)), e.key[1]) <= 1
+          /\ selfBelow => \/ /\ Count(StripSeq(Pre(c.tree)), e.key[1]) <= 1
+                             \* ... and once in its own handle: (self, self) reaches the one object twice as well
+                             /\ Count(StripSeq(e.val), e.key[1]) <= 1
                           \/ ~c.inplace /\ (c.rs \/ ~HasScoped(<<v>>))
        \* relabel: a fresh-tagged copy of the key with the key's own children
        \/ /\ Len(e.key) = 1 /\ e.typ = "node" /\ Len(e.key[1].b) > 0
